@@ -109,6 +109,8 @@ UNITS = {
     "unique_max1_list": ("unique", {"maxsize": 1, "hashable": False}, "A", "A", True),
     "unique_max2_list": ("unique", {"maxsize": 2, "hashable": False}, "A", "A", True),
     "unique_list": ("unique", {"hashable": False}, "A", "A", True),
+    "unique_max3_list": ("unique", {"maxsize": 3, "hashable": False}, "A", "A", True),
+    "unique_max3": ("unique", {"maxsize": 3}, "A", "A", True),
     "unique_key": ("unique", {"key": mod2}, "S", "S", True),
     "unique_key_max1": ("unique", {"key": mod2, "maxsize": 1}, "S", "S", True),
     "flatten": ("flatten", {}, "V", "S", False),
@@ -158,7 +160,7 @@ def chains(length, names=None):
     return out
 
 
-HASHING = {"unique", "unique_max1", "unique_max2", "punique1", "punique2_first",
+HASHING = {"unique", "unique_max1", "unique_max2", "unique_max3", "punique1", "punique2_first",
            "punique2_last", "punique3_first", "punique3_last"}
 
 CORE = ["map", "filter", "acc", "acc_ws", "slice_1_n_2", "partition2", "partition2_key",
